@@ -82,3 +82,5 @@ pub mod c19;
 pub mod c06;
 pub mod c34;
 pub mod c31;
+pub mod c09;
+pub mod c28;
